@@ -718,5 +718,8 @@ func main() {
 		cli.Close()
 		srv.Close()
 	}
+	if *batch == *nbatch-1 {
+		redialCells(*seed, *tier)
+	}
 	core.Finish()
 }
